@@ -65,9 +65,14 @@ def channel(draw, name, kind, allow_child=True):
     F = max(1, min(F, S * 1000))
     if (S * 1000) % F:
         F = S * 1000
-    base = draw(st.integers(T1980 // S, T2100 // S - 50)) * S
+    # mostly 1980-2100; sometimes the epoch itself (stamps 0, 5, 10: the number of digits changes inside a subdirectory)
+    # or the subdirectory in which the stamps pass 10^9 s
+    base = draw(st.one_of(st.integers(T1980 // S, T2100 // S - 50), st.integers(T1980 // S, T2100 // S - 50),
+                          st.sampled_from([0, 0, 10 ** 9 // S, 10 ** 9 // S - 1, (1 << 32) // S]))) * S
     nsub = draw(st.integers(0, 4))
-    prefixes = [draw(st.sampled_from(["rf", "rf", "ch", "data"]))] if data_kind == "rf" else [draw(st.sampled_from(["metadata", "md", "m_1"]))]
+    # (a prefix may begin with "tmp" - only "tmp." marks a temporary file - or hold characters special to regexes / formats)
+    prefixes = [draw(st.sampled_from(["rf", "rf", "ch", "data", "tmprf", "rf+1"]))] if data_kind == "rf" \
+        else [draw(st.sampled_from(["metadata", "md", "m_1", "tmp102", "duty50%%"]))]
     if draw(st.integers(0, 4)) == 0:
         prefixes.append("alt")
     subdirs = []
@@ -210,6 +215,8 @@ def options(draw, tree):
             opts["vanish"] = draw(st.sampled_from(cands))
     # naive datetimes are documented to mean UTC (the checks run with a non-UTC local time zone)
     opts["naive"] = draw(st.booleans())
+    # also ask the command line for the same listing (None: no; else the spelling of times / default flags)
+    opts["cli"] = draw(st.sampled_from([None, None, "iso", "float"]))
     return opts
 
 
